@@ -70,7 +70,7 @@ static void EnterDefine(char* Name, char* Definition) {
     for (z = 0; z < 256; Neu->Compiled[z++] = l)
         ;
     for (z = 0; z < l - 1; z++) {
-        Neu->Compiled[(unsigned int)Neu->TransFrom[z]] = l - (z + 1);
+        Neu->Compiled[((unsigned int)Neu->TransFrom[z]) & 0xff] = l - (z + 1);
     }
     FirstDefine = Neu;
 }
@@ -219,8 +219,8 @@ void ExpandDefines(char* Line) {
                         z--;
                     }
                     if (z2 >= 0) {
-                        p2 += Lauf->Compiled[(unsigned int)t_toupper(
-                                Line[p2 + FromLen - 1])];
+                        p2 += Lauf->Compiled
+                                      [((unsigned int)t_toupper(Line[p2 + FromLen - 1])) & 0xff];
                     }
                 }
                 if (z2 == -1) {
